@@ -214,24 +214,38 @@ Qed.
 Lemma tcp_ci_full f v sp dp ck : ci_full (ci_set_cookie (ci_set_ports (l3_ci f v) sp dp) ck) = true.
 Proof. unfold l3_ci, ci_full. destruct (v_v4 v); reflexivity. Qed.
 
-Lemma proto_repl_tcp_C12 E clk ci tc p ci' tc' d ctx :
-  env_ok E = true -> bytes_ok p = true -> ci_full ci = true ->
+(* the handler is given [snd (tcp_identify E tc p)]: the segment, preceded by the bytes the
+   flow has pending when this segment completes a signature *)
+Lemma proto_repl_tcp_C12_joined E clk ci tc p ci' tc' d ctx :
+  env_ok E = true -> bytes_ok (snd (tcp_identify E tc p)) = true -> ci_full ci = true ->
   proto_repl_tcp E clk ci tc p = Ok (ci', tc', Some d) ->
-  app_ok_C12seg ctx p (Some d) = true /\
-  (t_pstate tc = None -> rpc_reply_typed_tcp p = true -> is_rpc_reply_tcp d = false).
+  app_ok_C12seg ctx (snd (tcp_identify E tc p)) (Some d) = true /\
+  (t_pstate tc = None -> rpc_reply_typed_tcp (snd (tcp_identify E tc p)) = true -> is_rpc_reply_tcp d = false).
 Proof.
   intros HE Hok Hfull. unfold proto_repl_tcp.
-  set (tc1 := if t_proto tc =? PROTO_NONE then _ else tc).
-  assert (Hps : t_pstate tc1 = t_pstate tc).
-  { subst tc1. destruct (t_proto tc =? PROTO_NONE); [|reflexivity].
-    destruct (search_next _ _ _) as [[i st] n]. reflexivity. }
-  pose proof (dispatch_core_sound E clk ci (t_proto tc1) (Some tc1) p Hfull) as D. cbn [pstate_of] in D.
-  destruct (dispatch_core E clk (t_proto tc1) (t_pstate tc1) p) as [[c ps']|q] eqn:Hd.
+  assert (Hps : t_pstate (fst (tcp_identify E tc p)) = t_pstate tc).
+  { unfold tcp_identify. destruct (t_proto tc =? PROTO_NONE); [|reflexivity].
+    destruct (search_next _ _ _) as [[[i|] st] n]; reflexivity. }
+  destruct (tcp_identify E tc p) as [tc1 p1]. cbn [fst snd] in *.
+  pose proof (dispatch_core_sound E clk ci (t_proto tc1) (Some tc1) p1 Hfull) as D. cbn [pstate_of] in D.
+  destruct (dispatch_core E clk (t_proto tc1) (t_pstate tc1) p1) as [[c ps']|q] eqn:Hd.
   - destruct D as (ci2 & t2 & -> & _ & _). cbn [bind]. intros H. inversion H; subst.
     match goal with X : render c ci = Some d |- _ => rename X into Hr end. rewrite ?Hr.
     destruct (dispatch_core_C12 _ _ _ _ _ _ _ ci d ctx HE Hok Hd Hr) as [A B].
     split; [exact A|]. intros Hn. apply B. rewrite Hps. exact Hn.
   - rewrite D. cbn [bind]. discriminate.
+Qed.
+
+(* a flow without pending bytes (identified, or at its first data segment): the segment alone *)
+Lemma proto_repl_tcp_C12 E clk ci tc p ci' tc' d ctx :
+  env_ok E = true -> bytes_ok p = true -> ci_full ci = true -> t_pending tc = [] ->
+  proto_repl_tcp E clk ci tc p = Ok (ci', tc', Some d) ->
+  app_ok_C12seg ctx p (Some d) = true /\
+  (t_pstate tc = None -> rpc_reply_typed_tcp p = true -> is_rpc_reply_tcp d = false).
+Proof.
+  intros HE Hok Hfull Hpe H.
+  pose proof (proto_repl_tcp_C12_joined E clk ci tc p ci' tc' d ctx HE) as J.
+  rewrite (Pending.tcp_identify_data_empty E tc p Hpe) in J. exact (J Hok Hfull H).
 Qed.
 
 Lemma tcp_repl_data E cfg clk tb f v tb' ci' out evs :
@@ -301,35 +315,47 @@ Proof.
   intros H. unfold tcp_payload. destruct (length p <=? _)%nat; [reflexivity|]. apply bytes_ok_skipn, H.
 Qed.
 
-(* every data segment, whatever the table holds for its flow *)
+(* the flow of a TCP frame has no bytes pending in the table: it is identified, or its first
+   data segment is still to come *)
+Definition flow_not_pending (cfg : config) (tb : table) (f : bytes) : Prop :=
+  forall v tc, view_tcp cfg f = Some v ->
+    tbl_find (flow_cookie cfg (flow_of v)) tb = Some tc -> t_pending tc = [].
+
+(* every data segment of a flow that has no bytes pending (the handler of a flow is given the
+   segment that completes a signature joined to the bytes the flow sent before: for that
+   segment the statement is about the joined bytes, [proto_repl_tcp_C12_joined]) *)
 Theorem frame_tcp_seg_C12 E cfg clk tb f tb' r evs :
   env_ok E = true -> cfg_ok cfg = true -> bytes_ok f = true ->
+  flow_not_pending cfg tb f ->
   reply E cfg clk tb f = Ok (tb', r, evs) ->
   match tcp_req cfg f with
   | None => true
   | Some (ctx, p) => match tcp_resp r with Some o => app_ok_C12seg ctx p o | None => false end
   end = true.
 Proof.
-  intros HE Hcfg Hf Hr. unfold tcp_req.
+  intros HE Hcfg Hf Hnp Hr. unfold tcp_req.
   destruct (view_tcp cfg f) as [v|] eqn:Hvt; [|reflexivity].
   destruct (is_data (tcp_flags (v_l4 v))) eqn:Hd; [|reflexivity].
   destruct (view_tcp_view _ _ _ Hvt) as [Hv Hp].
   destruct (frame_tcp_any _ _ _ _ _ _ _ _ _ Hcfg HE Hf Hvt Hd Hr) as [-> | (ci2 & tc' & d & Hpr & ->)];
     [reflexivity|].
   cbv zeta in Hpr.
-  refine (proj1 (proto_repl_tcp_C12 _ _ _ _ _ _ _ _ _ HE _ (tcp_ci_full _ _ _ _ _) Hpr)).
-  apply tcp_payload_bytes_ok. exact (view_l4_ok _ _ _ Hf Hv).
+  refine (proj1 (proto_repl_tcp_C12 _ _ _ _ _ _ _ _ _ HE _ (tcp_ci_full _ _ _ _ _) _ Hpr)).
+  - apply tcp_payload_bytes_ok. exact (view_l4_ok _ _ _ Hf Hv).
+  - specialize (Hnp v). unfold flow_cookie, flow_of in Hnp. cbn [fl_src fl_dst fl_sport fl_dport] in Hnp.
+    destruct (tbl_find _ tb) as [t|]; [exact (Hnp t Hvt eq_refl)|reflexivity].
 Qed.
 
 (* ---------- the frame-level monitor ---------- *)
 Theorem C12x_frame E cfg clk tb f tb' r evs :
   env_ok E = true -> cfg_ok cfg = true -> bytes_ok f = true -> (length f <= 4096)%nat ->
+  flow_not_pending cfg tb f ->
   reply E cfg clk tb f = Ok (tb', r, evs) ->
   ok_C12x cfg f r = true.
 Proof.
-  intros HE Hcfg Hf Hlen Hr. unfold ok_C12x.
+  intros HE Hcfg Hf Hlen Hnp Hr. unfold ok_C12x.
   rewrite (frame_udp_C12 _ _ _ _ _ _ _ _ HE Hcfg Hf Hlen Hr).
-  rewrite (frame_tcp_seg_C12 _ _ _ _ _ _ _ _ HE Hcfg Hf Hr).
+  rewrite (frame_tcp_seg_C12 _ _ _ _ _ _ _ _ HE Hcfg Hf Hnp Hr).
   destruct (l2l4_reply_typed cfg f) eqn:Ht; [|reflexivity].
   destruct (l2l4_replies_unanswered _ _ _ _ _ _ _ _ Hf Ht Hr) as [-> _]. reflexivity.
 Qed.
@@ -354,7 +380,7 @@ Proof.
     rewrite (tbl_mem_find _ _ Hmem) in Hpr.
     assert (Hok : bytes_ok (tcp_payload (v_l4 v)) = true)
       by (apply tcp_payload_bytes_ok; exact (view_l4_ok _ _ _ Hf Hv)).
-    destruct (proto_repl_tcp_C12 _ _ _ _ _ _ _ _ (ctx_of true v) HE Hok (tcp_ci_full _ _ _ _ _) Hpr) as [A B].
+    destruct (proto_repl_tcp_C12 _ _ _ _ _ _ _ _ (ctx_of true v) HE Hok (tcp_ci_full _ _ _ _ _) (eq_refl : t_pending tcb_new = []) Hpr) as [A B].
     unfold app_ok_C12x. rewrite A. cbn [andb].
     destruct (rpc_reply_typed_tcp _) eqn:Ht; [|reflexivity]. rewrite (B eq_refl eq_refl). reflexivity.
 Qed.
